@@ -487,6 +487,94 @@ def r6_windows_for(text, notes):
     return text
 
 
+def _receiver_start(mask, dot):
+    """start offset of the postfix-expression chain that ends right before mask[dot] == '.'"""
+    j = dot - 1
+    while j >= 0:
+        while j >= 0 and mask[j] in ' \t\n':
+            j -= 1
+        c = mask[j]
+        if c in ')]':
+            depth = 0
+            while j >= 0:
+                if mask[j] in ')]':
+                    depth += 1
+                elif mask[j] in '([':
+                    depth -= 1
+                    if depth == 0:
+                        break
+                j -= 1
+            j -= 1
+            continue
+        if c.isalnum() or c == '_':
+            while j >= 0 and (mask[j].isalnum() or mask[j] == '_'):
+                j -= 1
+            # continue over `.` or `::`
+            k = j
+            while k >= 0 and mask[k] in ' \t\n':
+                k -= 1
+            if k >= 0 and mask[k] == '.':
+                j = k - 1
+                continue
+            if k >= 1 and mask[k - 1:k + 1] == '::':
+                j = k - 2
+                continue
+            if k >= 0 and mask[k] in '&*':
+                return k
+            return j + 1
+        break
+    return j + 1
+
+
+# (tail regex over the masked text, helper name, closures?) : adapters WITHOUT a vstd specification are lowered to
+# first-order helpers with assumed std semantics (shims/iter.rs); the closure text stays verbatim
+R6_TAILS = [
+    (r'\.\s*iter\s*\(\s*\)\s*\.\s*rev\s*\(\s*\)\s*\.\s*find_map\s*\(', 'vf_rfind_map'),
+    (r'\.\s*iter\s*\(\s*\)\s*\.\s*take_while\s*\(', 'vf_prefix_len', r'\)\s*\.\s*count\s*\(\s*\)'),
+    (r'\.\s*windows\s*\(\s*2\s*\)\s*\.\s*any\s*\(', 'vf_adjacent_any'),
+]
+
+
+def r6_tails(text, notes):
+    changed = True
+    while changed:
+        changed = False
+        mask = mask_text(text)
+        for ent in R6_TAILS:
+            pat, helper = ent[0], ent[1]
+            after = ent[2] if len(ent) > 2 else None
+            m = re.search(pat, mask)
+            if not m:
+                continue
+            par = m.end() - 1
+            close = match_close(mask, par)
+            end = close + 1
+            if after:
+                ma = re.match(after, mask[close:])
+                if not ma:
+                    continue
+                end = close + ma.end()
+            rs = _receiver_start(mask, m.start())
+            recv = text[rs:m.start()].strip()
+            arg = text[par + 1:close].strip()
+            text = text[:rs] + '%s(%s, %s)' % (helper, recv, arg) + text[end:]
+            notes.add('R6', '`%s%s..` lowered to %s(%s, <closure verbatim>)' % (recv, ' '.join(text[m.start():m.start()].split()), helper, recv))
+            changed = True
+            break
+    # `let X: HashMap<..> = E.into_iter().collect();`
+    mask = mask_text(text)
+    m = re.search(r'let\s+(mut\s+)?[A-Za-z_][A-Za-z0-9_]*\s*:\s*HashMap\s*<[^=;]*>\s*=', mask)
+    if m:
+        semi = find_at_depth0(mask, m.end(), len(mask), ';')
+        expr = text[m.end():semi]
+        em = re.search(r'\.\s*into_iter\s*\(\s*\)\s*\.\s*collect\s*\(\s*\)\s*$', mask[m.end():semi])
+        if em:
+            recv = expr[:em.start()].strip()
+            text = text[:m.end()] + ' vf_collect_map(%s)' % recv + text[semi:]
+            notes.add('R6', '`%s.into_iter().collect()` into a HashMap lowered to vf_collect_map' % ' '.join(recv.split()))
+    return text
+
+
 def eta_expand_paths(text, notes):
     """R6 (part): `.map(ToOwned::to_owned)` -> `.map(|x| x.to_owned())`"""
     new = re.sub(r'\.map\(\s*ToOwned::to_owned\s*\)', '.map(|x__| x__.to_owned())', text)
@@ -513,6 +601,8 @@ def apply_rules(text, rules, notes, extra_log_macros=()):
             text = r8b_pub_fields(text, notes)
         elif r == 'R10':
             text = r10_enumerate(text, notes)
+        elif r == 'R6t':
+            text = r6_tails(text, notes)
         elif r == 'R6w':
             text = r6_windows_for(text, notes)
         elif r == 'R6e':
@@ -522,4 +612,4 @@ def apply_rules(text, rules, notes, extra_log_macros=()):
     return text
 
 
-DEFAULT_RULES = ['R1', 'R2', 'R7', 'R8', 'R3', 'R4', 'R10', 'R6w', 'R6e']
+DEFAULT_RULES = ['R1', 'R2', 'R7', 'R8', 'R3', 'R4', 'R10', 'R6w', 'R6t', 'R6e']
